@@ -21,8 +21,10 @@ GATED = {"g", "y", "z"}
 SWEEP = {"src": ["s"], "tgt": ["s", "t"], "ids": ["i1", "i2"], "vars": [1, 2], "gated": []}
 SWEEP_G = {"src": ["z"], "tgt": ["t"], "ids": ["i1"], "vars": [1, 2], "gated": ["z"]}
 # router sweep: the same small edge set once per further router adapter (name -> adapter kind)
-SWEEPS = [("CrossChain_gen_router.cfg", dict(SWEEP, kinds={"s": k})) for k in ("r", "h", "e")] + \
-         [("CrossChain_gen_router_gated.cfg", dict(SWEEP_G, kinds={"z": "y"}))]
+# (a ripple chain is not an account-based destination, so the ripple sweep has two plain destinations)
+SWEEP_R = {"src": ["s"], "tgt": ["t", "w"], "ids": ["i1", "i2"], "vars": [1, 2], "gated": [], "kinds": {"s": "r", "w": "t"}}
+SWEEPS = [("CrossChain_gen_router.cfg", dict(SWEEP, kinds={"s": k})) for k in ("h", "e")] + \
+         [("CrossChain_gen_router_r.cfg", SWEEP_R), ("CrossChain_gen_router_gated.cfg", dict(SWEEP_G, kinds={"z": "y"}))]
 KIND = {"v": "vote", "r": "ripple", "b": "bsc", "y": "bytom", "g": "hsc", "h": "heco", "e": "eth", "t": "eth"}
 GEN = {
     "CrossChain_gen_quick.cfg": {"src": ["v", "b"], "tgt": ["v", "t"], "ids": ["i1", "i2"], "vars": [1, 2], "gated": []},
@@ -119,7 +121,9 @@ def run(ctx, pid):
     if diverged and not groups:
         ctx.fail("%d edges diverged while re-creating their source state although no edge mismatched (nondeterminism?)" % diverged)
     drift = []
-    for sig in sorted(groups)[:12]:
+    # root causes first: groups are ordered by their shortest history (consequences of an earlier deviation have longer ones)
+    order = sorted(groups, key=lambda g: (min(len(x["h"]) for x in groups[g]), g))
+    for sig in order[:16]:
         o = min(groups[sig], key=lambda x: len(x["h"]))
         ok, idx = monitor(ctx, pid, o["trace"])
         if ok:
@@ -128,8 +132,8 @@ def run(ctx, pid):
         ctx.violation("edge:" + sig, {"step": o["step"], "history": o["h"], "differs_in": o["what"], "predicted": o["pred"],
                       "predicted_requests": o["predReq"], "predicted_leaves": o["predLv"], "observed": o["proj"], "call": o["got"],
                       "cases_in_group": len(groups[sig])}, replay={"kind": "xc-edge", "cfg": o["cfg"], "edge": {"h": o["h"], "step": o["step"]}})
-    if len(groups) > 12:
-        ctx.note("%d further mismatch groups not classified: %s" % (len(groups) - 12, sorted(groups)[12:20]))
+    if len(groups) > 16:
+        ctx.note("%d further mismatch groups (longer histories) not classified: %s" % (len(groups) - 16, order[16:24]))
     if drift:
         ctx.note("edge mismatches accepted by the %s monitor (other property / permitted deviation): %s" % (pid, drift))
     # recorded histories
